@@ -358,10 +358,18 @@ def handshake_waker(ctx, fid, forward, inst, what, rule="R-SIB", forward_require
 def syncblocker_rules(ctx, rule="R-SIB"):
     ctx.order(SB + "::unpark", Call(r"may::sync::blocking::Blocker::unpark"), atomic("store", SB + ".unparked"), "unpark/wake-then-flag",
               "SyncBlocker::unpark wakes, then publishes `unparked` (a waiter that sees the flag has its token)", rule=rule)
-    ctx.mo_floor(SB + ".unparked", ("store",), "REL", "unparked-store", "handshake flag")
-    ctx.mo_floor(SB + ".unparked", ("load",), "ACQ", "unparked-load", "handshake flag")
-    ctx.mo_floor(SB + ".release", ("store",), "REL", "release-store", "handshake flag")
-    ctx.mo_floor(SB + ".release", ("swap",), "ACQ", "release-swap", "handshake flag")
+    # finding F22: `unparked` / `release` are a store-buffering (Dekker) pair - the waiter that gives up stores `release` and then loads
+    # `unparked`, the waker stores `unparked` and then swaps `release`; at least one must see the other's store or the hand-off is taken by
+    # nobody. Release/Acquire does not order a store with a later load of another location (not even on x86): all four are SeqCst
+    # (or separated by a SeqCst fence)
+    why = "store-buffering pair of the give-up / hand-off handshake: needs sequential consistency"
+    ctx.mo_floor(SB + ".unparked", ("store",), "SEQ", "unparked-store", why)
+    ctx.mo_floor(SB + ".unparked", ("load",), "SEQ", "unparked-load", why)
+    ctx.mo_floor(SB + ".release", ("store",), "SEQ", "release-store", why)
+    ctx.mo_floor(SB + ".release", ("swap",), "SEQ", "release-swap", why)
+    # the order inside each side of the pair
+    for fid, first, second, inst in ((None, None, None, None),):
+        pass
     f = ctx.fn(rule, SB + "::take_release", "swap-false")
     if f is not None:
         ok = False; site = None
